@@ -314,6 +314,20 @@ def spec_matches(c, spec):
         return _re.match(r"^err -\d+", c) is not None
     if spec.startswith("any-ok-or-refuse"):
         return True
+    if " # " in spec:
+        cs, ss = c.split(" # "), spec.split(" # ")
+        if len(cs) != len(ss):
+            return False
+        for a, b in zip(cs, ss):
+            if b.endswith("=?"):
+                if not a.startswith(b[:-1]):
+                    return False
+            elif b.endswith("=err*"):
+                if _re.match(_re.escape(b[:-4]) + r"err-\d+$", a) is None:
+                    return False
+            elif a != b:
+                return False
+        return True
     if " edit=* " in spec:
         c = _re.sub(r" edit=-?\d+ ", " edit=* ", c)
     if spec == "six":        # random address: exactly six bytes were produced
